@@ -305,6 +305,14 @@ where
         // read the remainder polynomial from the channel and make sure it agrees with the evaluations
         // from the previous layer.
         let remainder_poly = channel.read_remainder()?;
+
+        // make sure the remainder is the polynomial the prover committed to before the query
+        // positions were drawn; the last commitment is the hash of the remainder coefficients
+        match self.layer_commitments.last() {
+            Some(commitment) if *commitment == H::hash_elements(&remainder_poly) => (),
+            _ => return Err(VerifierError::RemainderCommitmentMismatch),
+        }
+
         if remainder_poly.len() > max_degree_plus_1 {
             return Err(VerifierError::RemainderDegreeMismatch(max_degree_plus_1 - 1));
         }
